@@ -28,10 +28,13 @@ class Clock:
         self.nchecks = 0
         self.check_reads = []
 
+    in_check = None   # None: deadline checks are recognised by the caller's name; True/False: set by the wrapped closure
+
     def __call__(self):
         v = self.t
         self.t += 1
-        if sys._getframe(1).f_code.co_name != "_wrapper":
+        is_check = self.in_check if self.in_check is not None else sys._getframe(1).f_code.co_name != "_wrapper"
+        if is_check:
             self.nchecks += 1
             self.check_reads.append(v)
         return v
@@ -52,6 +55,28 @@ class Instr:
     def __enter__(self):
         self._pc = self.timers.perf_counter
         self.timers.perf_counter = self.clock
+        # recognise deadline checks by wrapping the factory the parser module uses (independent of the names of the
+        # inner functions of timers.py); if the module has no such name, fall back to the caller-name rule
+        m = core.load_repo()
+        self._m = m
+        self._timeout = getattr(m, "timeout_", None)
+        if self._timeout is not None:
+            clock = self.clock
+            orig = self._timeout
+
+            def factory(t):
+                clock.in_check = False
+                f = orig(t)   # reads the start time: not a check
+
+                def check():
+                    clock.in_check = True
+                    try:
+                        return f()
+                    finally:
+                        clock.in_check = False
+                return check
+
+            m.timeout_ = factory
         self._rules = dict(self.R.rules)
         ev, clock = self.events, self.clock
         order = {n: i for i, n in enumerate(self._rules)}
@@ -76,6 +101,9 @@ class Instr:
 
     def __exit__(self, *a):
         self.timers.perf_counter = self._pc
+        if self._timeout is not None:
+            self._m.timeout_ = self._timeout
+        self.clock.in_check = None
         for n, v in self._rules.items():
             self.R.rules[n] = v
         self.PP.PartialParse._filter_rules = self._filter
@@ -182,7 +210,7 @@ def check_point(ins, text, ts, k, full, bound, single):
         return [("raises-under-timeout:" + type(e).__name__, "k={}: {!r}".format(k, e))]
     late = [e for e in ins.events if e[1] > to]
     # exact stop: nothing may happen after the first deadline check that reads a value past the deadline
-    due = [v for v in ins.clock.check_reads[1:] if v > to]
+    due = [v for v in ins.clock.check_reads if v > to and v > 0]
     if due:
         after = [e for e in ins.events if e[1] > due[0]]
         if after or len(due) > 1:
